@@ -450,7 +450,9 @@ def report(ctx, findings, behaviours, svcs, own_conjuncts, timeout_on=True, tabl
                        "observed_inuse": got.get("n") if got else None, "predicted_inuse": f.get("wantn")})
             continue
         conj = f["conjuncts"]
-        mine = [c for c in conj if c in own_conjuncts or (crash_is_own and c in ("crash", "exit", "sanitizer"))]
+        # a daemon that dies or hangs inside a step leaves every per-step obligation of that history unmet: "crash" is every
+        # daemon-level check's business; exit status and sanitizer reports at end of input only where the check says so
+        mine = [c for c in conj if c in own_conjuncts or c == "crash" or (crash_is_own and c in ("exit", "sanitizer"))]
         if not mine:
             for c in conj:
                 other[c] = other.get(c, 0) + 1
